@@ -6,14 +6,15 @@
 EXTENDS Ledger, Json, TLC, TraceLib
 CONSTANT KNOWN
 Trace == ndJsonDeserialize("trace.ndjson")
-VARIABLES l, viol, hist, bank, disp, dust, payers
-tvars == <<l, viol, hist, bank, disp, dust, payers, lvars>>
+VARIABLES l, viol, hist, bank, disp, dust, payers,
+          minted   \* inferred: bridge deposit ids that have been turned into tokens in this history
+tvars == <<l, viol, hist, bank, disp, dust, payers, minted, lvars>>
 
 Range(s) == { s[i] : i \in DOMAIN s }
 RateV == N(146940000)
 MsPerDayV == N(86400000)
 NsPerMsV == Pow10(6)
-Init == /\ l = 1 /\ viol = {} /\ hist = 0 /\ bank = <<>> /\ disp = <<>> /\ dust = Zero /\ payers = <<>>
+Init == /\ l = 1 /\ viol = {} /\ hist = 0 /\ bank = <<>> /\ disp = <<>> /\ dust = Zero /\ payers = <<>> /\ minted = {}
         /\ supply = Zero /\ minit = FALSE /\ hasprev = FALSE /\ prev = Zero /\ tbr = Zero /\ lnow = Zero /\ ivals = <<>>
 
 \* ---- dispute executions observed across a begin-block (burn by ExecuteVote) ----
@@ -32,7 +33,10 @@ BurnChoices(pre, post) ==
   LET NE == NewlyExecuted(pre, post) IN
   { NSum([d \in NE |-> IF d \in S THEN d.burn ELSE d.burn // N(2)], NE) : S \in SUBSET NE }
 
-ClaimTotal(e) == NSumSeq([i \in DOMAIN e.claims |-> e.claims[i].dec.amount // Pow10(12)])
+\* a claimed deposit adds its reported amount to the supply - once: ids already turned into tokens (earlier in the history, or
+\* earlier in the same message) add nothing
+FirstClaims(e) == { i \in DOMAIN e.claims : e.claims[i].id \notin minted /\ \A j \in 1 .. i - 1 : e.claims[j].id # e.claims[i].id }
+ClaimTotal(e) == NSum([i \in FirstClaims(e) |-> e.claims[i].dec.amount // Pow10(12)], FirstClaims(e))
 
 \* primed ledger variables are bound to the recorded post-state first; then the action is a test
 Check(e) ==
@@ -77,6 +81,7 @@ Step ==
         /\ supply' = b.supply /\ minit' = b.minter.init /\ hasprev' = b.minter.hasprev /\ prev' = b.minter.prevn
         /\ tbr' = b.bal.tbr /\ lnow' = t
         /\ bank' = b /\ disp' = e.post.dispute.disputes /\ dust' = e.post.dispute.dust /\ payers' = e.post.dispute.payers
+        /\ minted' = (IF reset THEN {} ELSE minted) \cup (IF e.ev = "ClaimDeposits" /\ e.ok THEN { e.claims[i].id : i \in DOMAIN e.claims } ELSE {})
         /\ ivals' = IF reset THEN << [t0 |-> t, minted |-> Zero] >>
                     ELSE IF e.ev = "BeginBlock" /\ e.ok
                          THEN LET x == Provision(t)
